@@ -477,6 +477,9 @@ func (eng *Engine) translate(unit, mode string, fn *ssa.Function, fc *FuncContra
 type frameAllowed struct {
 	addr  string
 	field int // -1: whole object
+	// for `x[:]`: only the absolute indices lo <= k < hi of the backing array (the elements
+	// within the length of x) may change
+	lo, hi string
 }
 
 // frameAllow evaluates the modifies clause at entry: per heap variable the addresses (and fields) that may change.
@@ -526,8 +529,9 @@ func (fr *Frame) frameAllow(entry *State) (allow map[string][]frameAllowed, free
 			free["global:"+strings.TrimSpace(item[7:])] = true
 			continue
 		}
-		elems := strings.HasSuffix(item, "[*]")
-		it := strings.TrimSuffix(item, "[*]")
+		elems := strings.HasSuffix(item, "[*]") || strings.HasSuffix(item, "[:]")
+		inLen := strings.HasSuffix(item, "[:]")
+		it := strings.TrimSuffix(strings.TrimSuffix(item, "[*]"), "[:]")
 		deref := strings.HasPrefix(it, "*")
 		it = strings.TrimPrefix(it, "*")
 		e, err := ParseExpr(it)
@@ -540,7 +544,12 @@ func (fr *Frame) frameAllow(entry *State) (allow map[string][]frameAllowed, free
 			switch u := tv.typ.Underlying().(type) {
 			case *types.Slice:
 				hv := vc.arrHeapVar(u.Elem())
-				allow[hv] = append(allow[hv], frameAllowed{addr: fmt.Sprintf("(sref %s)", tv.term), field: -1})
+				fa := frameAllowed{addr: fmt.Sprintf("(sref %s)", tv.term), field: -1}
+				if inLen && !vc.isBV() {
+					fa.lo = fmt.Sprintf("(soff %s)", tv.term)
+					fa.hi = fmt.Sprintf("(+ (soff %s) (slen_ %s))", tv.term, tv.term)
+				}
+				allow[hv] = append(allow[hv], fa)
 			case *types.Map:
 				hv := vc.mapHeapVar(u)
 				allow[hv] = append(allow[hv], frameAllowed{addr: tv.term, field: -1})
@@ -588,7 +597,11 @@ func (fr *Frame) frameFormula(hv string, allow map[string][]frameAllowed, entry 
 	var fieldItems []frameAllowed
 	for _, al := range allow[hv] {
 		if al.field < 0 {
-			excl = append(excl, not(eq("a", al.addr)))
+			if al.lo != "" {
+				excl = append(excl, fmt.Sprintf("(or (not (= a %s)) (< k %s) (>= k %s))", al.addr, al.lo, al.hi))
+			} else {
+				excl = append(excl, not(eq("a", al.addr)))
+			}
 		} else {
 			fieldItems = append(fieldItems, al)
 		}
